@@ -201,6 +201,8 @@ def rule_hash(
         hash_attr = c.class_attrs.get('__hash__')
         if eq is None and hs is None:
             continue
+        if eq is not None:
+            zip_prefix_equality(rep, c, eq, rule)
         if c.name in EXCEPTIONS:
             rep.observe(f'{rule}: {c.name} exempt: {EXCEPTIONS[c.name]}')
             continue
@@ -293,3 +295,65 @@ def rule_hash(
             + '; '.join(bad), key='hash-not-in-eq',
         )
     return n
+
+
+# ---------------------------------------------------------------------------
+# Prefix equality.  `all(a == b for a, b in zip(X, Y))` stops at the shorter
+# sequence: unless the lengths were compared first, an object equals every
+# extension of itself (and, with a hash over all elements, equal objects hash
+# differently).  Accepted length guards, anywhere in the method, as the two
+# sides of one == / != comparison:
+#     len(X) vs len(Y);  X vs Y themselves;  X.<size> vs Y.<size> for a size
+#     attribute of the iterated object;  for `<o>.radixes`: <o>.num_qudits;
+#     zip(..., strict=True);
+#     a listed counting table (Circuit._gate_info: gate -> number of
+#     occurrences, which fixes the number of operations).
+SIZE_ATTRS = ('num_operations', 'num_cycles', 'num_params', 'size')
+COUNTING_TABLES = {'_gate_info'}
+
+
+def _swap_self(text: str, me: str, other: str) -> str:
+    import re
+    return re.sub(rf'\b{re.escape(me)}\b', other, text)
+
+
+def zip_prefix_equality(
+    rep: Report, c: ClassInfo, eq: FunctionInfo, rule: str,
+) -> None:
+    args = eq.params
+    if len(args) < 2:
+        return
+    me, other = args[0], args[1]
+    compares = []
+    for x in ast.walk(eq.node):
+        if isinstance(x, ast.Compare) and len(x.ops) == 1 and isinstance(
+                x.ops[0], (ast.Eq, ast.NotEq)):
+            compares.append({norm(x.left), norm(x.comparators[0])})
+    for z in ast.walk(eq.node):
+        if not (isinstance(z, ast.Call) and isinstance(z.func, ast.Name)
+                and z.func.id == 'zip' and len(z.args) == 2):
+            continue
+        if any(k.arg == 'strict' and isinstance(k.value, ast.Constant)
+               and k.value.value is True for k in z.keywords):
+            continue
+        a, b = norm(z.args[0]), norm(z.args[1])
+        if _swap_self(a, me, other) != b:
+            continue
+        forms = [f'len({a})', a] + [f'{a}.{s}' for s in SIZE_ATTRS]
+        if a.endswith('.radixes'):
+            forms.append(a[:-len('.radixes')] + '.num_qudits')
+        guarded = any({f, _swap_self(f, me, other)} in compares
+                      for f in forms)
+        if not guarded and a == me:
+            guarded = any({f'{me}.{t}', f'{other}.{t}'} in compares
+                          for t in COUNTING_TABLES)
+        rep.count()
+        rep.check(
+            guarded, rule, f'{c.name}.__eq__:zip({a}, {b})', c.path,
+            z.lineno,
+            'element-wise comparison is preceded by a length comparison',
+            f'`zip({a}, {b})` stops at the shorter of the two and no '
+            'comparison of their lengths is made: an object compares equal '
+            'to every extension of itself (equal objects then also hash '
+            'differently)', key='prefix-equality',
+        )
